@@ -4,7 +4,7 @@ import math
 import numpy as np
 import pandas as pd
 
-from scipy.stats import kstest, percentileofscore, spearmanr
+from scipy.stats import kstest, percentileofscore, spearmanr, rankdata
 
 import warnings
 
@@ -536,7 +536,8 @@ def dscore(obs, sim, eps=1e-6):
 
     if nens == 1:
         # Compute ensemble rank for deterministic forecasts
-        franks = np.argsort(np.argsort(sim[:, 0]))
+        # (mid-ranks: tied forecasts share their rank)
+        franks = rankdata(sim[:, 0])
     else:
         # initialise data
         fmat = np.zeros((nval, nval), dtype=np.float64)
